@@ -441,11 +441,19 @@ def getunit(v, unit='rad'):
         return v
     elif unit == "deg":
         if isinstance(v, np.ndarray) or isscalar(v):
-            return v * math.pi / 180
+            return _double(v) * math.pi / 180
         else:
-            return [x * math.pi / 180 for x in v]
+            return [_double(x) * math.pi / 180 for x in v]
     else:
         raise ValueError("invalid angular units")
+
+
+def _double(x):
+    # a single- or half-precision NumPy value is converted in double precision
+    # (the product with pi/180 would otherwise be rounded to its own precision)
+    if isinstance(x, (np.ndarray, np.floating)) and x.dtype.kind == 'f' and x.dtype.itemsize < 8:
+        return x.astype(np.float64)
+    return x
 
 
 def isnumberlist(x):
